@@ -17,7 +17,8 @@ The glue below is NOT anchored code; it mirrors, line by line, how the SDK drive
                                    segment.segment_offset, segment.range_size)]} -> normalize_stream(dirname, ...)
 Names are handled as latin-1 strings (one character per byte), so byte values survive unchanged.
 
-Abstract syntax and concretisation as in harness/C10_manifest/vc10_common_test.go.tmpl.  Decides nothing.
+Abstract syntax and concretisation as in harness/C10_manifest/vc10_common_test.go.tmpl (a block is
+10000*h+c: c stands for hash+size, h selects the hints).  Decides nothing.
 """
 import hashlib
 import importlib.util
@@ -58,6 +59,7 @@ class World:
                 self.add(b)
 
     def add(self, b):
+        b = b % 10000          # hints do not change which data is meant
         if b in self.hash:
             return
         size = b % 100
@@ -75,24 +77,29 @@ class World:
              "+Rzzzzz-0123456789abcdef0123456789abcdef01234567@5f612ee6",
              "+Z+Afedcba9876543210fedcba9876543210fedcba98@5f612ee6+Kzzzzz"]
 
-    def locator(self, b, hints, k):
-        loc = "%s+%d" % (self.hash[b], b % 100)
-        if hints == 1:
-            loc += self.HINTS[1]
-        elif hints == 2:
-            loc += self.HINTS[k % 4]
+    def locator(self, b):
+        c, h = b % 10000, b // 10000
+        loc = "%s+%d" % (self.hash[c], c % 100)
+        if 0 < h < len(self.HINTS):
+            loc += self.HINTS[h]
         return loc
 
     def id_of(self, loc):
-        parts = str(loc).split("+")
+        parts = str(loc).split("+", 2)
         try:
             size = int(parts[1])
         except (IndexError, ValueError):
             size = 0
-        b = self.by_hash.get(parts[0])
-        if b is not None and b % 100 == size:
-            return b
-        return 9900 + size % 100
+        h = 0
+        if len(parts) == 3:
+            h = 9
+            for i, hint in enumerate(self.HINTS):
+                if "+" + parts[2] == hint:
+                    h = i
+        c = self.by_hash.get(parts[0])
+        if c is not None and c % 100 == size:
+            return 10000 * h + c
+        return 10000 * h + 9900 + size % 100
 
 
 def to_str(name):
@@ -115,14 +122,12 @@ def run_scenario(R, N, scn, rnd):
     w = World(scn["streams"])
     files = {}        # path -> list of Range (the ArvadosFile._segments)
     order = []
-    k = 0
     for s in scn["streams"]:
         stream_name = unescape_manifest_path(to_str(s["name"]))
         blocks = []
         streamoffset = 0
         for b in s["blocks"]:
-            tok = w.locator(b, scn.get("hints", 0), k)
-            k += 1
+            tok = w.locator(b)
             blocksize = int(BLOCK_RE.match(tok).group(1))
             blocks.append(R.Range(tok, streamoffset, blocksize, 0))
             streamoffset += blocksize
